@@ -599,6 +599,8 @@ impl SlabRouter {
         // Save snapshot first
         self.save_to_file(snapshot_path)
             .map_err(|e| SlabRouterError::WalError(format!("Failed to save snapshot: {e}")))?;
+        #[cfg(neumann_verif)]
+        crate::verif_hook::point("checkpoint.snapshot_saved");
 
         let checkpoint_id = self.checkpoint_counter.fetch_add(1, Ordering::SeqCst);
 
@@ -611,6 +613,8 @@ impl SlabRouter {
             };
             wal.append(&entry)
                 .map_err(|e| SlabRouterError::WalError(format!("Failed to log checkpoint: {e}")))?;
+            #[cfg(neumann_verif)]
+            crate::verif_hook::point("checkpoint.marker_logged");
 
             // Truncate WAL after successful checkpoint
             wal.truncate()
